@@ -634,6 +634,20 @@ func (c *Ctx) checkNexusKeywords() {
 		}
 	})
 	if len(keys) < 10 {
+		// the keyword list as a package-level table looked up with the upper-cased identifier
+		allInstrs(sc.F, func(in ssa.Instruction) {
+			if lk, ok := in.(*ssa.Lookup); ok {
+				if u, ok := lk.X.(*ssa.UnOp); ok && u.Op == token.MUL {
+					if g, ok := u.X.(*ssa.Global); ok {
+						for _, k := range c.globalStringMapKeys(g) {
+							keys[k] = true
+						}
+					}
+				}
+			}
+		})
+	}
+	if len(keys) < 10 {
 		L.Unknown("nexus-keywords", sc.label, "keyword switch", c.P.Pos(sc.F.Pos()), fmt.Sprintf("only %d keyword comparisons found", len(keys)))
 		return
 	}
